@@ -68,3 +68,49 @@ Theorem link_w2p_is_pixel : forall c ss i idx, left_inverse c -> right_inverse c
   link_w2p c ss i idx == pixarr ss i idx.
 Proof. exact Lemmas.link_w2p_is_pixel. Qed.
 Print Assumptions link_w2p_is_pixel.
+
+(* ---------- histories (round 4) ----------
+   hstate = (coordinate object: identity + value, shape, number of world components, the object the links were built with, number of links);
+   hop = read (no view / view / index arrays) | update_values_from_data | coords = obj | an operation that changes neither.
+   The setter condition and CoordinateComponent.data / __getitem__ are translated from the source (coq/gen/Gen_coordcomp.v). *)
+
+(* The model's setter is the translated condition of Data.coords.setter: world components and links are rebuilt exactly when the
+   coordinate OBJECT changes. *)
+Theorem hset_coords_spec : forall s cid c,
+  hset_coords s cid c =
+  if (hs_cid s =? cid)%Z then s
+  else hrebuild (mkH cid c (hs_shape s) (hs_wn s) (hs_lcid s) (hs_lcoords s) (hs_ln s)).
+Proof. exact Lemmas.hset_coords_spec. Qed.
+Print Assumptions hset_coords_spec.
+
+(* Invariant of every history that keeps the number of dimensions: the links refer to the current coordinate object, there are ndim
+   world components (none without coordinates) and as many link pairs. *)
+Theorem history_invariant : forall h s, hwf s -> Forall (op_keeps_ndim (length (hs_shape s))) h ->
+  hwf (hfinal s h) /\ length (hs_shape (hfinal s h)) = length (hs_shape s).
+Proof. exact Lemmas.history_invariant. Qed.
+Print Assumptions history_invariant.
+
+(* No hidden state: after any history the state is the one of a dataset built afresh from the current coordinate object and shape. *)
+Theorem history_no_hidden_state : forall h s, hwf s -> Forall (op_keeps_ndim (length (hs_shape s))) h ->
+  let s' := hfinal s h in s' = hbuild (hs_cid s') (hs_coords s') (hs_shape s').
+Proof. exact Lemmas.history_no_hidden_state. Qed.
+Print Assumptions history_no_hidden_state.
+
+(* Every read of a history (world attributes without / with a view, both kinds of links, the counts) returns what a dataset built
+   afresh from the coordinate object and the shape that are current AT THAT READ returns. *)
+Theorem history_reads_current : forall h s, hwf s -> Forall (op_keeps_ndim (length (hs_shape s))) h ->
+  hrun s h = hrun_spec (hs_cid s, hs_coords s, hs_shape s) h.
+Proof. exact Lemmas.history_reads_current. Qed.
+Print Assumptions history_reads_current.
+
+(* ... and those values are the CURRENT transformation applied to the pixel grid of the view: world attributes, pixel->world links
+   (built possibly long before) and world->pixel links (which return the pixel coordinate itself). *)
+Theorem history_values_direct : forall h s, hwf s -> Forall (op_keeps_ndim (length (hs_shape s))) h ->
+  let s' := hfinal s h in
+  forall ss a idx, (a < cdim (hs_coords s'))%nat ->
+    world_value (hs_coords s') ss a idx == p2w (hs_coords s') (cdim (hs_coords s') - 1 - a) (pix_vec (cdim (hs_coords s')) ss idx) /\
+    link_p2w (hs_lcoords s') ss a idx == p2w (hs_coords s') (cdim (hs_coords s') - 1 - a) (pix_vec (cdim (hs_coords s')) ss idx) /\
+    (left_inverse (hs_coords s') -> right_inverse (hs_coords s') ->
+     link_w2p2 (hs_lcoords s') (hs_coords s') ss a idx == pixarr ss a idx).
+Proof. exact Lemmas.history_values_direct. Qed.
+Print Assumptions history_values_direct.
